@@ -224,6 +224,10 @@ type KnownFinding struct {
 	Status   string `json:"status"` // open | fixed
 	What     string `json:"what"`
 	Commit   string `json:"commit,omitempty"`
+	// optional: violated obligations of these kinds (alloc, panic, loop) whose position contains
+	// one of the sites are attributed to this finding (for findings keyed by call site)
+	Sites []string `json:"sites,omitempty"`
+	Kinds []string `json:"kinds,omitempty"`
 }
 
 func loadKnown(cfg *Config) (map[string]bool, map[string]KnownFinding) {
@@ -253,6 +257,12 @@ func runHarness(ld *loaded, h harnessRef, cfg *Config, known map[string]bool, de
 	t0 := time.Now()
 	res = &HarnessResult{ID: h.id, Pkg: h.pkg.Pkg.Path(), Func: h.fn.Name()}
 	opts := Options{Tier: cfg.Tier, Known: known, Deadline: deadline, TimeoutMs: 60000}
+	_, allKnown := loadKnown(cfg)
+	for _, kf := range allKnown {
+		if kf.Status == "open" && kf.Property == cfg.Property && len(kf.Sites) > 0 {
+			opts.KnownSites = append(opts.KnownSites, kf)
+		}
+	}
 	if cfg.Tier == "thorough" {
 		opts.TimeoutMs = 120000
 		opts.SecondCheck = true
